@@ -222,7 +222,7 @@ func (e *Engine) invoke(fr *Frame, ret ssa.Value, fn *ssa.Function, binds []Valu
 	if fn.Blocks == nil && fn.Pkg != nil {
 		fn.Pkg.Build()
 	}
-	if fn.Blocks == nil || !e.mayInterp(fn) {
+	if fn.Blocks == nil || !(e.mayInterp(fn) || interpFuncs[name]) {
 		why := "no body"
 		if fn.Blocks != nil {
 			why = "package not in the interpretation whitelist"
@@ -288,6 +288,22 @@ var modelFuncs = map[string]string{
 	"fmt.Sprint":            "vpmSprint",
 	"context.WithValue":     "vpmWithValue",
 	"errors.Is":             "vpmErrorsIs",
+	"net/http.Error":             "vpmHttpError",
+	"net/http.Redirect":          "vpmRedirect",
+	"(net/http.Header).Get":      "vpmHeaderGet",
+	"(net/http.Header).Add":      "vpmHeaderAdd",
+	"(net/http.Header).Set":      "vpmHeaderSet",
+	"(net/http.Header).Del":      "vpmHeaderDel",
+	"(net/http.Header).Values":   "vpmHeaderValues",
+	"context.WithTimeout":        "vpmWithTimeout",
+	"context.WithCancel":         "vpmWithCancel",
+}
+
+// interpFuncs: individual functions of otherwise non-interpreted packages that are plain Go.
+var interpFuncs = map[string]bool{
+	"(*net/http.Request).Context":         true,
+	"(*net/http.Request).WithContext":     true,
+	"(net/http.HandlerFunc).ServeHTTP":    true,
 }
 
 func (e *Engine) freshVar(prefix string, w uint8) *smt.Term {
